@@ -27,6 +27,9 @@ pub const VERSION: &str = env!("CARGO_PKG_VERSION");
 /// Globally available configuration.
 static CONFIG: Lazy<ArcSwap<Config>> = Lazy::new(|| ArcSwap::from_pointee(Config::default()));
 
+/// One reload at a time: SIGHUP, the autoreloader and the admin RELOAD do not know of each other.
+static RELOAD_LOCK: Lazy<tokio::sync::Mutex<()>> = Lazy::new(|| tokio::sync::Mutex::new(()));
+
 /// Server role: primary or replica.
 #[derive(Clone, PartialEq, Serialize, Deserialize, Hash, std::cmp::Eq, Debug, Copy)]
 pub enum Role {
@@ -1707,6 +1710,10 @@ pub async fn parse(path: &str) -> Result<(), Error> {
 }
 
 pub async fn reload_config(client_server_map: ClientServerMap) -> Result<bool, Error> {
+    // The pools are built from the configuration as it is when the build starts and published when
+    // it ends: of two reloads that overlap, the one that read the older file can publish last.
+    let _reload = RELOAD_LOCK.lock().await;
+
     let old_config = get_config();
 
     match parse(&old_config.path).await {
